@@ -284,3 +284,33 @@ func H_sym_bytes() {
 	vAssert(c.String() == s, "bytes:mixed-copy")
 	vDone()
 }
+
+// H_sym_cut: strings.Cut / Index / IndexByte / HasPrefix on symbolic text.
+func H_sym_cut() {
+	n := vChoice("n", 3)
+	rs := make([]rune, n)
+	for i := range rs {
+		rs[i] = vRune("c")
+		vAssume(vOr(vAnd(rs[i] >= 0, rs[i] < 0xD800), vAnd(rs[i] > 0xDFFF, rs[i] <= 0x10FFFF)))
+	}
+	q := vRune("q")
+	vAssume(vOr(vAnd(q >= 0, q < 0xD800), vAnd(q > 0xDFFF, q <= 0x10FFFF)))
+	s, sep := string(rs), string(q)
+	before, after, found := strings.Cut(s, sep)
+	if found {
+		vAssert(before+sep+after == s, "cut:rejoins")
+		vAssert(strings.Index(before, sep) < 0, "cut:first-occurrence")
+		vAssert(strings.Index(s, sep) == len(before), "cut:index-is-byte-offset")
+		vAssert(strings.HasPrefix(s[len(before):], sep), "cut:prefix-at-offset")
+	} else {
+		vAssert(before == s && after == "", "cut:not-found")
+		for _, r := range rs {
+			vAssert(r != q, "cut:really-absent")
+		}
+	}
+	if len(s) > 0 {
+		i := strings.IndexByte(s, s[len(s)-1])
+		vAssert(i >= 0 && i < len(s) && s[i] == s[len(s)-1], "indexbyte:finds-a-match")
+	}
+	vDone()
+}
